@@ -1081,6 +1081,36 @@ def cli_sweep(n: int, seed: int) -> Tuple[Dict[str, Any], List[Dict[str, Any]]]:
                         viol.append({"input": {"argv": argv[3:], "rule": rule, "macros_files": docs, "listing": L_case},
                                      "real": {"exit": p.returncode, "cli_found": found, "cli_addresses": addrs, "api_bool": rb["result"], "api_list": rl["result"]},
                                      "disagreement": "the jasm command does not report the verdict / matched addresses the API computes"})
+        # RELATIVE paths are relative to the working directory, for every option (the API opens the paths it is given): the rule lives in
+        # another directory than the cwd, and a same-named decoy of the macros file / of the listing lies beside the rule
+        work, rules = os.path.join(t, "work"), os.path.join(t, "rules")
+        os.makedirs(work, exist_ok=True)
+        os.makedirs(rules, exist_ok=True)
+        rel_rule = {"pattern": ["@target"]}
+        good_doc, decoy_doc = {"macros": [{"name": "@target", "pattern": "push"}]}, {"macros": [{"name": "@target", "pattern": "nosuchthing"}]}
+        yaml.safe_dump(rel_rule, open(os.path.join(rules, "rule.yaml"), "w"), sort_keys=False)
+        yaml.safe_dump(good_doc, open(os.path.join(work, "extra.yaml"), "w"), sort_keys=False)
+        yaml.safe_dump(decoy_doc, open(os.path.join(rules, "extra.yaml"), "w"), sort_keys=False)
+        open(os.path.join(work, "in.s"), "w").write(L)
+        open(os.path.join(rules, "in.s"), "w").write(listing_of([("401000", "ret", [""])]))
+        for allm, only in ((False, False), (True, True)):
+            argv = [py, "-m", "jasm.main", "-p", os.path.join("..", "rules", "rule.yaml"), "-s", "in.s", "--macros", "extra.yaml"] + \
+                   (["--all-matches"] if allm else []) + (["--return_only_address"] if only else [])
+            p = subprocess.run(argv, capture_output=True, text=True, env=env, cwd=work)
+            runs += 1
+            out = p.stderr + p.stdout
+            addrs = [ln.split("Matched address: ", 1)[1] for ln in out.split("\n") if "Matched address: " in ln]
+            found = "RESULT: Pattern found" in out
+            api = replay.run_real({"kind": "mop", "rule": rel_rule, "listing": L, "macros_files": [good_doc],
+                                   "modes": [["bool", "all_finds" if allm else "first_find", only],
+                                             ["matched_addrs_list", "all_finds" if allm else "first_find", only]]})
+            rb, rl = api["results"][0], api["results"][1]
+            if "error" in rb or p.returncode != 0 or found != rb["result"] or addrs != rl["result"]:
+                viol.append({"input": {"argv": argv[3:], "cwd": "work/", "rule": rel_rule, "macros_files": [good_doc], "listing": L,
+                                       "decoys": "rules/extra.yaml defines @target as nosuchthing; rules/in.s holds one ret"},
+                             "real": {"exit": p.returncode, "cli_found": found, "cli_addresses": addrs, "api": [rb, rl]},
+                             "disagreement": "the jasm command does not report the verdict / matched addresses the API computes "
+                                             "(relative paths: the command read other files than the ones named relative to the working directory)"})
         # required arguments
         for argv, what in (([py, "-m", "jasm.main", "-s", lp], "without -p"), ([py, "-m", "jasm.main", "-p", rp], "without -s/-b"),
                            ([py, "-m", "jasm.main", "-p", rp, "-s", lp, "-b", lp], "with both -s and -b"),
@@ -1108,7 +1138,7 @@ def cli_sweep(n: int, seed: int) -> Tuple[Dict[str, Any], List[Dict[str, Any]]]:
                 viol.append({"input": {"argv": argv[3:], "PATH": e.get("PATH")}, "real": {"exit": 0, "output": (p.stderr + p.stdout)[-300:]},
                              "disagreement": f"the command {what} exits with status 0 although the operation failed"})
     return {"cli_sweep": {"runs": runs, "bound": "6 rules (two on a listing whose sections restart at address 0) x 6 option combinations through `python -m jasm.main` in a scratch directory, "
-                          "macro files given in non-sorted order, plus 4 malformed command lines and 5 failing operations"}}, viol
+                          "macro files given in non-sorted order, plus 2 runs with relative paths and same-named decoys beside the rule, 4 malformed command lines and 5 failing operations"}}, viol
 
 
 def cli_smoke() -> Tuple[Dict[str, Any], List[Dict[str, Any]]]:
@@ -1164,6 +1194,36 @@ def cli_smoke() -> Tuple[Dict[str, Any], List[Dict[str, Any]]]:
                 viol.append({"input": {"argv": ["-p", "rule", "-b", binp, "--return_only_address"], "rule": brule, "binary": binp},
                              "real": {"exit": p.returncode, "cli_addresses": addrs, "api_bool": rb["result"], "api_list": rl["result"], "output_tail": out[-300:]},
                              "disagreement": "the jasm command in binary mode does not report the verdict / matched addresses the API computes"})
+        # RELATIVE paths are relative to the working directory, for every option (the API opens the paths it is given): the rule lives in
+        # another directory than the cwd, and a same-named decoy of the macros file / of the listing lies beside the rule
+        work, rules = os.path.join(t, "work"), os.path.join(t, "rules")
+        os.makedirs(work, exist_ok=True)
+        os.makedirs(rules, exist_ok=True)
+        rel_rule = {"pattern": ["@target"]}
+        good_doc, decoy_doc = {"macros": [{"name": "@target", "pattern": "push"}]}, {"macros": [{"name": "@target", "pattern": "nosuchthing"}]}
+        yaml.safe_dump(rel_rule, open(os.path.join(rules, "rule.yaml"), "w"), sort_keys=False)
+        yaml.safe_dump(good_doc, open(os.path.join(work, "extra.yaml"), "w"), sort_keys=False)
+        yaml.safe_dump(decoy_doc, open(os.path.join(rules, "extra.yaml"), "w"), sort_keys=False)
+        open(os.path.join(work, "in.s"), "w").write(L)
+        open(os.path.join(rules, "in.s"), "w").write(listing_of([("401000", "ret", [""])]))
+        for allm, only in ((False, False), (True, True)):
+            argv = [py, "-m", "jasm.main", "-p", os.path.join("..", "rules", "rule.yaml"), "-s", "in.s", "--macros", "extra.yaml"] + \
+                   (["--all-matches"] if allm else []) + (["--return_only_address"] if only else [])
+            p = subprocess.run(argv, capture_output=True, text=True, env=env, cwd=work)
+            runs += 1
+            out = p.stderr + p.stdout
+            addrs = [ln.split("Matched address: ", 1)[1] for ln in out.split("\n") if "Matched address: " in ln]
+            found = "RESULT: Pattern found" in out
+            api = replay.run_real({"kind": "mop", "rule": rel_rule, "listing": L, "macros_files": [good_doc],
+                                   "modes": [["bool", "all_finds" if allm else "first_find", only],
+                                             ["matched_addrs_list", "all_finds" if allm else "first_find", only]]})
+            rb, rl = api["results"][0], api["results"][1]
+            if "error" in rb or p.returncode != 0 or found != rb["result"] or addrs != rl["result"]:
+                viol.append({"input": {"argv": argv[3:], "cwd": "work/", "rule": rel_rule, "macros_files": [good_doc], "listing": L,
+                                       "decoys": "rules/extra.yaml defines @target as nosuchthing; rules/in.s holds one ret"},
+                             "real": {"exit": p.returncode, "cli_found": found, "cli_addresses": addrs, "api": [rb, rl]},
+                             "disagreement": "the jasm command does not report the verdict / matched addresses the API computes "
+                                             "(relative paths: the command read other files than the ones named relative to the working directory)"})
         # required arguments
         for argv, what in (([py, "-m", "jasm.main", "-s", lp], "without -p"), ([py, "-m", "jasm.main", "-p", rp], "without -s/-b"),
                            ([py, "-m", "jasm.main", "-p", rp, "-s", lp, "-b", lp], "with both -s and -b"),
